@@ -505,6 +505,8 @@ class Backend(threading.Thread):
                 if port or attempt == 7:
                     raise
         self.port = self.lsock.getsockname()[1]
+        self.body_stall = 0         # seconds to wait between the header and the body of a message of more than 1 MB
+        self.small_rcvbuf = False   # accepted sockets get a small receive buffer
         self.listen_up = threading.Event()
         self.listen_up.set()
         self.relisten = False
@@ -650,6 +652,11 @@ class Backend(threading.Thread):
                     return
                 continue
             c.setsockopt(socket.IPPROTO_TCP, socket.TCP_NODELAY, 1)
+            if self.small_rcvbuf:
+                try:
+                    c.setsockopt(socket.SOL_SOCKET, socket.SO_RCVBUF, 32768)
+                except OSError:
+                    pass
             self.nconn += 1
             serial = self.nconn
             mode = self.mode
@@ -761,7 +768,17 @@ class Backend(threading.Thread):
                 time.sleep(0.02)
             if self.read_delay:
                 time.sleep(self.read_delay)
-            t, body = W.read_msg(c)
+            if self.body_stall:
+                # a server that is slow to take a very large message: the header is read, the body after a pause
+                t = W.recvn(c, 1)
+                ln = struct.unpack('!i', W.recvn(c, 4))[0]
+                if ln < 4:
+                    raise ValueError('bad length %d' % ln)
+                if ln > 1000000:
+                    time.sleep(self.body_stall)
+                body = W.recvn(c, ln - 4)
+            else:
+                t, body = W.read_msg(c)
             if self.record_bytes:
                 s.log('be_read', data=t + struct.pack('!i', len(body) + 4) + body)
             if t == b'X':
